@@ -96,6 +96,13 @@ class Verdicts:
         coverage = dict(coverage)
         coverage.update({k: v for k, v in self.counters.items() if k not in coverage})
         coverage['known_findings_reobserved'] = {k: h['n'] for k, h in self.known_hits.items()}
+        if self.violations:
+            cls = {}
+            for v in self.violations:
+                key = '%s|%s|%s' % (v.get('cls') or v.get('clause') or v.get('kind'),
+                                    ','.join(v.get('clauses') or v.get('fields') or []), v.get('error') or '')
+                cls[key] = cls.get(key, 0) + 1
+            coverage['violation_classes'] = cls
         ev = {'property_id': self.pid, 'tier': self.tier, 'seed': seed(), 'level': level,
               'coverage': coverage, 'assumptions': list(assumptions),
               'wall_s': round(time.time() - self.t0, 2), 'violations': len(self.violations)}
